@@ -95,21 +95,22 @@ type Found struct {
 
 // Report is what a worker writes for the runner.
 type Report struct {
-	Property     string           `json:"property"`
-	Shard        int              `json:"shard"`
-	Runs         int64            `json:"runs"`
-	EnumRuns     int64            `json:"enum_runs"`
-	EnumTotal    int64            `json:"enum_total"`
-	Steps        int64            `json:"steps"`
-	VirtualNS    int64            `json:"virtual_ns"`
-	Counters     map[string]int64 `json:"counters"`
-	Hashes       []uint64         `json:"hashes"`     // hashes of nontrivial cases (for distinct counting across shards)
-	Nontrivial   int64            `json:"nontrivial"` // not deduplicated
-	Samples      []any            `json:"samples"`
-	Found        []Found          `json:"found"`
-	WallS        float64          `json:"wall_s"`
-	StoppedEarly bool             `json:"stopped_early"`
-	Info         map[string]any   `json:"info,omitempty"`
+	Property     string            `json:"property"`
+	Shard        int               `json:"shard"`
+	Runs         int64             `json:"runs"`
+	EnumRuns     int64             `json:"enum_runs"`
+	EnumTotal    int64             `json:"enum_total"`
+	Steps        int64             `json:"steps"`
+	VirtualNS    int64             `json:"virtual_ns"`
+	Counters     map[string]int64  `json:"counters"`
+	Hashes       []uint64          `json:"hashes"`     // hashes of nontrivial cases (for distinct counting across shards)
+	Nontrivial   int64             `json:"nontrivial"` // not deduplicated
+	Samples      []any             `json:"samples"`
+	Found        []Found           `json:"found"`
+	RunDigests   map[string]uint64 `json:"run_digests,omitempty"` // -digests: run index -> digest of everything the run reported
+	WallS        float64           `json:"wall_s"`
+	StoppedEarly bool              `json:"stopped_early"`
+	Info         map[string]any    `json:"info,omitempty"`
 }
 
 // Harness bundles what a property provides.
@@ -176,6 +177,7 @@ func Main(h *Harness) {
 		dump    = flag.Bool("dumptrace", false, "with -replay: print the step trace")
 		child   = flag.String("childrun", "", "internal: execute one run described by this JSON file and print the result")
 		refmode = flag.Bool("reference", false, "internal: serve one reference request on stdin/stdout")
+		digests = flag.Bool("digests", false, "record a digest per run (determinism self-test)")
 	)
 	args := argList{}
 	flag.Var(args, "arg", "harness argument key=value (repeatable)")
@@ -237,6 +239,27 @@ func Main(h *Harness) {
 	found := map[string]*Found{}
 	deadline := start.Add(time.Duration(*maxsec * float64(time.Second)))
 
+	digest := func(tag string, r *Run) {
+		if !*digests {
+			return
+		}
+		if rep.RunDigests == nil {
+			rep.RunDigests = map[string]uint64{}
+		}
+		var ks []string
+		for k, v := range r.Counters {
+			ks = append(ks, fmt.Sprintf("%s=%d", k, v))
+		}
+		sort.Strings(ks)
+		cl := ""
+		if r.Violation != nil {
+			cl = r.Violation.Class
+		}
+		rep.RunDigests[tag] = Hash64(fmt.Sprint(r.Hash, r.Steps, r.VirtualNS, r.Nontrivial), cl, strings.Join(ks, ","))
+		if os.Getenv("VERIF_DIGEST_DEBUG") != "" {
+			fmt.Fprintf(os.Stderr, "DIGEST %s %v %v %v %v %s %s\n", tag, r.Hash, r.Steps, r.VirtualNS, r.Nontrivial, cl, strings.Join(ks, ","))
+		}
+	}
 	account := func(r *Run) {
 		rep.Steps += r.Steps
 		rep.VirtualNS += r.VirtualNS
@@ -307,6 +330,7 @@ func Main(h *Harness) {
 			c := &Ctx{S: choice.New(*seed, uint64(i)+1<<40), Tier: *tier, Seed: *seed, RunIx: uint64(i), Args: args}
 			r := execFresh(h, c, i)
 			rep.EnumRuns++
+			digest(fmt.Sprintf("e%d", i), r)
 			account(r)
 			if r.Violation != nil {
 				handle(r, c, i)
@@ -322,6 +346,7 @@ func Main(h *Harness) {
 		c := &Ctx{S: choice.New(*seed, uint64(run)), Tier: *tier, Seed: *seed, RunIx: uint64(run), Args: args}
 		r := execFresh(h, c, -1)
 		rep.Runs++
+		digest(fmt.Sprintf("r%d", run), r)
 		account(r)
 		if r.Violation != nil {
 			handle(r, c, -1)
